@@ -1097,6 +1097,30 @@ var scAddMuts = []struct {
 		p := r.Intn(len(items) + 1)
 		return append(items[:p:p], append([]scItem{x}, items[p:]...)...)
 	}},
+	{"extend-core-scalar-directive-wrong-location", func(r *rand.Rand, items []scItem) []scItem {
+		// a built-in scalar extended with a use of a directive that may not stand on a scalar
+		d := scPick(r, items, func(it *scItem) bool {
+			if it.K != kDirective {
+				return false
+			}
+			for _, l := range it.Locs {
+				if l == 8 {
+					return false
+				}
+			}
+			for _, a := range it.Inputs {
+				if a.T.K == 2 && a.Def == nil {
+					return false
+				}
+			}
+			return true
+		})
+		if d == nil {
+			return nil
+		}
+		x := scItem{Ext: true, K: kScalar, N: r.Intn(5), Dirs: []scDU{{N: d.N}}}
+		return append(items[:len(items):len(items)], x)
+	}},
 	{"extend-other-kind", func(r *rand.Rand, items []scItem) []scItem {
 		it := scPick(r, items, func(it *scItem) bool { return it.K == kEnum || it.K == kInput || it.K == kUnion })
 		if it == nil {
@@ -1557,23 +1581,25 @@ func c14Gen(r *rand.Rand, tier string) []Case {
 			push("ok", b, "load")
 		}
 		// what a refused load tried to add to an accepted type can be added by a later valid load
-		for _, d := range docs {
-			for _, it := range d {
-				if it.Ext && len(it.Fields) == 1 && it.Fields[0].N >= 660 && it.Fields[0].N < 700 && it.K == kObject && r.Intn(2) == 0 {
-					push("ok", []scItem{{Ext: true, K: it.K, N: it.N, Fields: []scField{it.Fields[0]}}}, "load-after-refused-extension")
-					goto added
-				}
-				if it.Ext && it.K == kEnum && len(it.Vals) >= 1 && it.Vals[0].N >= 660 && it.Vals[0].N < 700 && r.Intn(3) != 0 {
-					push("ok", []scItem{{Ext: true, K: it.K, N: it.N, Vals: []scEV{it.Vals[0]}}}, "load-after-refused-extension")
-					goto added
-				}
-				if it.Ext && it.K == kInput && len(it.Inputs) >= 1 && it.Inputs[0].N >= 660 && it.Inputs[0].N < 700 && r.Intn(3) != 0 {
-					push("ok", []scItem{{Ext: true, K: it.K, N: it.N, Inputs: []scArg{it.Inputs[0]}}}, "load-after-refused-extension")
-					goto added
+		{
+			var again [][]scItem
+			for _, d := range docs {
+				for _, it := range d {
+					if it.Ext && len(it.Fields) == 1 && it.Fields[0].N >= 660 && it.Fields[0].N < 700 && it.K == kObject {
+						again = append(again, []scItem{{Ext: true, K: it.K, N: it.N, Fields: []scField{it.Fields[0]}}})
+					}
+					if it.Ext && it.K == kEnum && len(it.Vals) >= 1 && it.Vals[0].N >= 660 && it.Vals[0].N < 700 {
+						again = append(again, []scItem{{Ext: true, K: it.K, N: it.N, Vals: []scEV{it.Vals[0]}}})
+					}
+					if it.Ext && it.K == kInput && len(it.Inputs) >= 1 && it.Inputs[0].N >= 660 && it.Inputs[0].N < 700 {
+						again = append(again, []scItem{{Ext: true, K: it.K, N: it.N, Inputs: []scArg{it.Inputs[0]}}})
+					}
 				}
 			}
+			if len(again) > 0 && r.Intn(4) != 0 {
+				push("ok", again[r.Intn(len(again))], "load-after-refused-extension")
+			}
 		}
-	added:
 		if r.Intn(2) == 0 {
 			push("ok", a, "fail:reload")
 		}
